@@ -290,7 +290,7 @@ func (rs *rowStore) processInserts(offsetsBySource common.OffsetsBySource, stop 
 			ms.offsetsBySource[insert.source] = insert.offset
 			ms.offsetChanged = true
 			if insert.key != nil {
-				ms.tree.Update(insert.key, nil, insert.vals, insert.metadata)
+				rs.safeUpdate(ms, insert)
 				rs.t.updateHighWaterMarkMemory(insert.vals.TimeInt())
 			}
 			rs.mx.Unlock()
@@ -332,6 +332,19 @@ func (rs *rowStore) processInserts(offsetsBySource common.OffsetsBySource, stop 
 			}
 		}
 	}
+}
+
+// safeUpdate applies an insert to the memstore. The table's expressions are
+// evaluated on client-supplied dimensions here (e.g. the condition of an IF
+// field); a panic in that evaluation must not take down the row store, and
+// with it the whole process, so the offending point is logged and skipped.
+func (rs *rowStore) safeUpdate(ms *memstore, insert *insert) {
+	defer func() {
+		if p := recover(); p != nil {
+			rs.t.log.Errorf("Panic on updating memstore, skipping point: %v", p)
+		}
+	}()
+	ms.tree.Update(insert.key, nil, insert.vals, insert.metadata)
 }
 
 func (rs *rowStore) iterate(ctx context.Context, outFields core.Fields, includeMemStore bool, onValue func(bytemap.ByteMap, []encoding.Sequence) (more bool, err error)) (common.OffsetsBySource, error) {
